@@ -39,8 +39,27 @@ def _cargo_rustc(manifest, target, feats, unpretty, pkg=None, no_default=True, t
 def parse_enums(expanded):
     """enum name -> [(variant, discriminant)] from -Zunpretty=expanded text"""
     out = {}
-    for m in re.finditer(r"\benum (\w+)\s*\{(.*?)\n\s*\}", expanded, re.S):
-        body = m.group(2)
+    for m in re.finditer(r"\benum (\w+)\s*\{", expanded):
+        # body up to the matching brace (string literals of doc attributes skipped)
+        i = m.end()
+        depth, instr = 1, False
+        j = i
+        while j < len(expanded) and depth:
+            ch = expanded[j]
+            if instr:
+                if ch == "\\":
+                    j += 1
+                elif ch == '"':
+                    instr = False
+            elif ch == '"':
+                instr = True
+            elif ch == "{":
+                depth += 1
+            elif ch == "}":
+                depth -= 1
+            j += 1
+        body = expanded[i:j - 1]
+        body = re.sub(r'#\[doc\s*=\s*"(?:[^"\\]|\\.)*"\]', "", body, flags=re.S)
         body = re.sub(r"#\[[^\]]*\]", "", body, flags=re.S)
         body = re.sub(r"//[^\n]*", "", body)
         body = re.sub(r"/\*.*?\*/", "", body, flags=re.S)
@@ -112,7 +131,25 @@ def dump_repo_parallel(backends):
     return [dump_repo(b) for b in backends]
 
 
-def dump_crate(name, crate_dir, backend="f64", feats=None, no_default=False):
+def make_crate(name, src, backend, qfeats="std"):
+    """write a downstream crate (path dependency on /repo) into the scratch area; -> its directory"""
+    import shutil
+    sc = common.scratch()
+    d = sc.dir("crate-%s-%s" % (name, backend))
+    feats = ", ".join('"%s"' % f for f in (qfeats.split(",") + (["fpdec"] if backend == "dec" else [])))
+    with open(os.path.join(d, "Cargo.toml"), "w") as f:
+        f.write('[package]\nname = "%s"\nversion = "0.0.0"\nedition = "2021"\n\n[dependencies]\n'
+                'quantities = { path = "%s", default-features = false, features = [%s] }\nqty-macros = { path = "%s/qty-macros" }\n\n[workspace]\n\n'
+                '[lints.rust]\nunexpected_cfgs = { level = "allow" }\n' % (name, common.REPO, feats, common.REPO))
+    if os.path.exists(os.path.join(common.REPO, "Cargo.lock")):
+        shutil.copy(os.path.join(common.REPO, "Cargo.lock"), os.path.join(d, "Cargo.lock"))
+    os.makedirs(os.path.join(d, "src"), exist_ok=True)
+    with open(os.path.join(d, "src", "lib.rs"), "w") as f:
+        f.write("#![allow(unused, non_snake_case, non_camel_case_types)]\n" + src)
+    return d
+
+
+def dump_crate(name, crate_dir, backend="f64", feats=None, no_default=False, keep_catalogue=False):
     """MIR + expanded source of a downstream crate (astronomical crate, synthetic
     definitions); merged with the generic (non-catalogue) bodies of quantities."""
     key = ("crate", name, backend)
@@ -141,7 +178,19 @@ def dump_crate(name, crate_dir, backend="f64", feats=None, no_default=False):
     d.enums.update(parse_enums(out2))
     d.program = Program()
     mods = tuple(m + "::" for m in CATALOGUE_MODULES)
-    d.program.add_dump(base.mir, "quantities", keep=lambda n: not n.startswith(mods))
+    if keep_catalogue:
+        d.enums = dict(base.enums)
+        d.enums.update(parse_enums(out2))
+        d.program.add_dump(base.mir, "quantities")
+    else:
+        d.program.add_dump(base.mir, "quantities", keep=lambda n: not n.startswith(mods))
     d.program.add_dump(out, name)
+    # quantity types defined by the downstream crate itself (for native replay paths)
+    own = Program()
+    own.add_dump(out, name)
+    d.own_types = set()
+    for b in own.by_method.get("unit", []):
+        if len(b.nparams) == 1 and b.nparams[0].startswith("&"):
+            d.own_types.add(b.nparams[0].lstrip("&").strip())
     _cache[key] = d
     return d
